@@ -198,6 +198,12 @@ func Mergeable(rng *rand.Rand, opt Options) []*Service {
 		if len(v.services) == 0 {
 			v.services = []int{rng.Intn(n)}
 		}
+		// a type extended with disjoint fields needs at least two services to be interesting
+		if !v.identical && len(v.services) == 1 && n > 1 {
+			other := (v.services[0] + 1 + rng.Intn(n-1)) % n
+			v.services = append(v.services, other)
+			sort.Ints(v.services)
+		}
 		vals = append(vals, v)
 	}
 	// value type definitions
